@@ -132,6 +132,8 @@ type Result struct {
 	VdrReport    *core.VDRKillReport
 	OutsideEffects []string
 	DebugNotes     []string
+	// TopOutsPre is the top-level _outs before post-processing.
+	TopOutsPre string
 }
 
 // Removal is one VDR deletion as measured by the harness.
@@ -461,6 +463,11 @@ func Run(p *progen.Program, sched Schedule, opts Options) (res *Result) {
 			res.Written[pth] = int64(len(content))
 		}
 		io.TempPath = filepath.Join(j.MdPath, "tmp")
+		io.Symlink = func(target, link string) {
+			os.MkdirAll(filepath.Dir(link), 0o755)
+			os.Symlink(target, link)
+		}
+		io.OutsideDir = filepath.Join(dir, "outside")
 		if opts.SymlinkParent {
 			io.RealPath = func(pth string) string {
 				if rp, err := filepath.EvalSymlinks(pth); err == nil {
@@ -541,6 +548,9 @@ func Run(p *progen.Program, sched Schedule, opts Options) (res *Result) {
 				d.fn()
 			}
 			deferred = nil
+			if b, err := h.TopOuts(); err == nil {
+				res.TopOutsPre = string(b)
+			}
 			if os.Getenv("VERIF_DEBUG") != "" {
 				res.DebugNotes = append(res.DebugNotes, h.VdrDebug()...)
 			}
